@@ -14,6 +14,8 @@ A case is [op, args...] (see run_C19 in coq/Model/C19_Run.v):
   14 from_dict   [14, most_precise, items, style_str]     Style.from_dict(dict, priority)
   15 transform   [15, tree, attrs, opp_table, adj_table]  style_transformation.*.transform_attrs
   16 caches      [16, queries]                            a query history over fresh caches
+  17 merged      [17, pool, objects, events]              merged/dynamic style objects: look-ups interleaved
+                                                          with switches of the dynamic sheets
 """
 import itertools
 
@@ -24,7 +26,7 @@ TABLES = ["Whitespace", "C19_Palette"]
 MODELS = [("c19", "Extract/ExC19.v", "run_C19")]
 OPN = {1: "cascade", 2: "escape-code", 3: "sgr-decode", 4: "ansi-text", 5: "map256", 6: "map16",
        7: "int16", 8: "parse_color", 9: "parse_style_str", 10: "expand_classname", 11: "split",
-       12: "int-format", 13: "end-to-end", 14: "from_dict", 15: "transform", 16: "cache-history"}
+       12: "int-format", 13: "end-to-end", 14: "from_dict", 15: "transform", 16: "cache-history", 17: "merged-dynamic"}
 DEPTHS = {1: "DEPTH_1_BIT", 4: "DEPTH_4_BIT", 8: "DEPTH_8_BIT", 24: "DEPTH_24_BIT"}
 FIELDS = ("color", "bgcolor", "bold", "underline", "strike", "italic", "blink", "reverse", "hidden")
 HEX = "0123456789abcdefABCDEF"
@@ -175,7 +177,45 @@ def impl_run(case):
         return [0, enc_attrs(t.transform_attrs(dec_attrs(case[2])))]
     if op == 16:
         return run_history(case[1], shared=True)
+    if op == 17:
+        return run_merged_events(case, fresh=False)
     raise ValueError(op)
+
+
+def run_merged_events(case, fresh):
+    """fresh=False: the objects are built once and keep their caches over the
+    whole event history; fresh=True: every look-up is answered by objects built
+    anew for the sheets as they are at that moment (the reference)"""
+    from prompt_toolkit.styles import DummyStyle, DynamicStyle
+    P = pt()
+    _, pool, objs, events = case
+    sheets = {i: P["Style"]([(unS(n), unS(x)) for n, x in rules]) for i, rules in pool}   # kept alive: ids stay distinct
+    current = {}
+
+    def build(x):
+        if x[0] == 0:
+            return sheets[x[1]]
+        if x[0] == 1:
+            return DummyStyle()
+        if x[0] == 2:
+            return DynamicStyle(lambda slot=x[1]: current.get(slot))
+        return P["merge_styles"]([build(y) for y in x[1]])
+    built = [build(o) for o in objs]
+    out = []
+    for e in events:
+        if e[0] == 0:
+            current[e[1]] = sheets[e[2][0]] if e[2] else None
+            out.append([])
+        elif e[0] == 1:
+            o = build(objs[e[1]]) if fresh else built[e[1]]
+            try:
+                out.append([0, enc_attrs(o.get_attrs_for_style_str(unS(e[2])))])
+            except Exception as ex:  # noqa
+                out.append(_exc(ex))
+        else:
+            o = build(objs[e[1]]) if fresh else built[e[1]]
+            out.append([5, [[S(n), S(x)] for n, x in o.style_rules]])
+    return out
 
 
 def build_transf(x):
@@ -739,6 +779,44 @@ def oracle(case, res):
                     k, case[1][k], unS(x) if case[1][k][0] == 0 else x, unS(y) if case[1][k][0] == 0 else y, k),
                     {"op": "cache-history", "family": "cache"})
         return None
+    if op == 17:
+        _, pool, objs, events = case
+        if not (isinstance(res, list) and len(res) == len(events)):
+            return ("event history raised %r" % (res,), {"op": "merged-dynamic", "family": "raise"})
+        rules_of = {i: [(unS(n), unS(x)) for n, x in r] for i, r in pool}
+        cur = {}
+
+        def rules_now(x):
+            if x[0] == 0:
+                return rules_of[x[1]]
+            if x[0] == 1:
+                return []
+            if x[0] == 2:
+                return rules_of[cur[x[1]]] if cur.get(x[1]) is not None else []
+            return [r for y in x[1] for r in rules_now(y)]
+        for k, (e, got) in enumerate(zip(events, res)):
+            if e[0] == 0:
+                cur[e[1]] = e[2][0] if e[2] else None
+                continue
+            o = objs[e[1]]
+            want_rules = rules_now(o)
+            if e[0] == 2:
+                if got != [5, [[S(n), S(x)] for n, x in want_rules]]:
+                    return ("event %d: style_rules is not the concatenation of the current sheets' rules" % k,
+                            {"op": "merged-dynamic", "family": "style_rules"})
+                continue
+            if o[0] == 3:       # a merge is one sheet with the CURRENT rules concatenated
+                ref = impl_case([1, 0, [[rule_sx(r) for r in want_rules]], e[2], DEFAULT_SX])
+            elif o[0] == 0 or (o[0] == 2 and cur.get(o[1]) is not None):
+                ref = impl_case([1, 0, [[rule_sx(r) for r in want_rules]], e[2], DEFAULT_SX])
+            else:
+                ref = [0, DEFAULT_SX]
+            if sx_norm(got) != sx_norm(ref):
+                return ("event %d: look-up %r gives %r; one sheet with the current rules %r gives %r (after %d earlier events)" % (
+                    k, unS(e[2]), tuple(dec_attrs(got[1])) if got and got[0] == 0 else got, want_rules,
+                    tuple(dec_attrs(ref[1])) if ref and ref[0] == 0 else ref, k),
+                    {"op": "merged-dynamic", "family": "stale-merge"})
+        return None
     if op == 13:
         if res[0] != 0:
             try:
@@ -1212,6 +1290,55 @@ def gen_cache_history(chk, dist):
     return cases
 
 
+def gen_merged_dynamic(chk, dist):
+    rng = chk.rng
+    thorough = chk.tier == "thorough"
+    rule_opts = [(n, st) for n in ["a", "b", "a b", "", "a.b"] for st in STYLES_SMALL + ["#0000ff nobold strike", "underline"]]
+    strs = ["class:a", "class:b", "class:a class:b", "class:a.b", "", "class:b class:a bold", "class:a,b #abcdef"]
+    cases = []
+
+    def pool(n):
+        return [[i, [rule_sx(rng.choice(rule_opts)) for _ in range(rng.randint(0, 3))]] for i in range(n)]
+    # shapes: a dynamic sheet between plain ones, nested merges, two dynamic slots, dynamic alone, dummy
+    shapes = [
+        [3, [[0, 0], [2, 0], [0, 1]]],
+        [3, [[0, 0], [3, [[2, 0], [0, 1]]]]],
+        [3, [[2, 0], [2, 1]]],
+        [3, [[3, [[0, 0], [2, 0]]], [3, [[2, 1], [1]]]]],
+        [3, [[2, 0]]],
+        [2, 0],
+        [3, [[0, 0], [0, 1]]],
+        [3, [[1], [2, 0], [2, 0]]],
+    ]
+    # systematic: look-up, switch, look-up again (and back) on every shape
+    for shape in shapes:
+        for _ in range(12 if thorough else 3):
+            p = pool(5)
+            for st in strs[:4]:
+                for first, second in ((2, 3), (2, None), (None, 3), (3, 2)):
+                    ev = [[0, 0, [first] if first is not None else []], [0, 1, [4]], [1, 0, S(st)], [2, 0],
+                          [0, 0, [second] if second is not None else []], [1, 0, S(st)], [2, 0],
+                          [0, 0, [first] if first is not None else []], [1, 0, S(st)],
+                          [0, 1, [2]], [1, 0, S(st)]]
+                    cases.append([17, p, [shape], ev])
+    # random histories over several objects sharing the slots
+    for _ in range(6000 if thorough else 700):
+        p = pool(5)
+        objs = [rng.choice(shapes) for _ in range(rng.randint(1, 3))]
+        ev = []
+        for _k in range(rng.randint(2, 10)):
+            r = rng.random()
+            if r < 0.4:
+                ev.append([0, rng.randint(0, 1), [rng.randint(0, 4)] if rng.random() < 0.85 else []])
+            elif r < 0.9:
+                ev.append([1, rng.randrange(len(objs)), S(rng.choice(strs))])
+            else:
+                ev.append([2, rng.randrange(len(objs))])
+        cases.append([17, p, objs, ev])
+    dist["merged_dynamic"] = len(cases)
+    return cases
+
+
 # --------------------------------------------------------------------------
 # thorough tier: the whole 2^24 cube of the 256-colour map, real cache against
 # an independent oracle (per-channel nearest cube level + best gray), sharded
@@ -1233,6 +1360,58 @@ def _cube_structure(tab):
     if any(c[0] != c[1] or c[1] != c[2] for _, c in rest):
         return None
     return levels, rest
+
+
+LOWHEX = frozenset("0123456789abcdef")
+
+
+def _kernel_worker(args):
+    """kernel_ok on the real code: get_opposite_color (unmemoised) for every colour of the
+    shard, AdjustBrightness for a lattice of colours x brightness bounds: six lower-case
+    hexadecimal digits, and the same value as the harness kernel"""
+    r_lo, r_hi = args
+    from prompt_toolkit.styles import style_transformation as T
+    from prompt_toolkit.styles import Attrs
+    opp = getattr(T.get_opposite_color, "__wrapped__", None)
+    bad, n = [], 0
+    for r in range(r_lo, r_hi):
+        for g in range(256):
+            base = "%02x%02x" % (r, g)
+            for b in range(256):
+                c = base + "%02x" % b
+                v = opp(c) if opp is not None else kernel_opp(c)
+                n += 1
+                if len(v) != 6 or not LOWHEX.issuperset(v):
+                    if len(bad) < 5:
+                        bad.append(("get_opposite_color", c, v))
+    bounds = [(0.0, 0.7), (0.3, 1.0), (0.2, 0.8), (0.5, 0.5), (1.0, 0.0), (0.0, 0.0), (1.0, 1.0), (0.013, 0.987)]
+    for lo, hi in bounds:
+        t = T.AdjustBrightnessStyleTransformation(lo, hi)
+        for r in range(r_lo, r_hi):
+            for g in range(0, 256, 5):
+                for b in range(0, 256, 3):
+                    c = "%02x%02x%02x" % (r, g, b)
+                    v = t.transform_attrs(Attrs(c, "", False, False, False, False, False, False, False)).color
+                    n += 1
+                    if len(v) != 6 or not LOWHEX.issuperset(v) or v != kernel_adj(c, lo, hi):
+                        if len(bad) < 5:
+                            bad.append(("AdjustBrightness(%s, %s)" % (lo, hi), c, v))
+    return n, bad
+
+
+def sweep_kernels(chk, workers=8):
+    import multiprocessing as mp
+    ctx = mp.get_context("fork")
+    shards = [(r, r + 16) for r in range(0, 256, 16)]
+    total, bad = 0, []
+    with ctx.Pool(workers) as pool:
+        for n, b in pool.imap_unordered(_kernel_worker, shards):
+            total += n
+            bad += b
+    for what, c, v in bad[:5]:
+        chk.violation("oracle", "transformation kernel %s(%r) = %r is not six lower-case hexadecimal digits (or differs from the harness kernel)" % (what, c, v),
+                      {"op": "transform", "family": "kernel-range"}, {"kernel": what, "colour": c, "observed": v})
+    return total
 
 
 def _sweep_worker(args):
@@ -1316,6 +1495,14 @@ def show_input(c):
         return "Style.from_dict(%r, %s) style_str=%r" % ({unS(n): unS(x) for n, x in c[2]}, "MOST_PRECISE" if c[1] else "DICT_KEY_ORDER", unS(c[3]))
     if op == 15:
         return "transformation %s on Attrs%r" % (show_transf(c[1]), tuple(dec_attrs(c[2])))
+    if op == 17:
+        def sh(x):
+            return ("sheet%d" % x[1] if x[0] == 0 else "DummyStyle()" if x[0] == 1 else "DynamicStyle(slot%d)" % x[1] if x[0] == 2
+                    else "merge_styles([%s])" % ", ".join(sh(y) for y in x[1]))
+        return "sheets %r; objects %s; events %s" % (
+            {i: [(unS(n), unS(x)) for n, x in r] for i, r in c[1]}, [sh(o) for o in c[2]],
+            "; ".join(("slot%d := %s" % (e[1], "sheet%d" % e[2][0] if e[2] else "None")) if e[0] == 0 else
+                      ("obj%d.get_attrs(%r)" % (e[1], unS(e[2]))) if e[0] == 1 else "obj%d.style_rules" % e[1] for e in c[3]))
     if op == 16:
         return "fresh caches, then " + "; ".join(
             ("_EscapeCodeCache(%s)[Attrs%r]" % (DEPTHS[q[1]], tuple(dec_attrs(q[2]))) if q[0] == 0 else
@@ -1349,7 +1536,7 @@ def describe(c, a, m):
                                                       unS(m[1]) if isinstance(m, list) and len(m) == 2 and isinstance(m[1], list) else m)
     if op in (4, 7, 8, 9, 10, 11):
         return "%s(%r) impl=%r model=%r" % (OPN[op], unS(c[1]), a, m)
-    if op in (14, 15, 16):
+    if op in (14, 15, 16, 17):
         return "%s impl=%r model=%r" % (show_input(c), a, m)
     return "%s%r impl=%r model=%r" % (OPN.get(op, "?"), c[1:], a, m)
 
@@ -1380,6 +1567,7 @@ def main(tier):
     cases += gen_fromdict(chk, dist)
     cases += gen_transform(chk, dist)
     cases += gen_cache_history(chk, dist)
+    cases += gen_merged_dynamic(chk, dist)
     nm = len(cases)
     t = time.time()
     impl_results = []
@@ -1447,6 +1635,10 @@ def main(tier):
         chk.coverage["full_cube_256_triples"] = sweep_256(chk)
         chk.coverage["evaluations"] += chk.coverage["full_cube_256_triples"]
         timing["full_cube_sweep_s"] = round(time.time() - t, 1)
+        t = time.time()
+        chk.coverage["kernel_range_evaluations"] = sweep_kernels(chk)
+        chk.coverage["evaluations"] += chk.coverage["kernel_range_evaluations"]
+        timing["kernel_sweep_s"] = round(time.time() - t, 1)
     chk.coverage["timing"] = timing
     proof_gate(chk, pr)
     chk.coverage["rule"] = (
